@@ -78,7 +78,7 @@ Within(m, e, D, s, u2, k, ue) ==
        \* common unit 10^-sp * 2^-F ; everything doubled so that half units stay integral
        A == BMulS(BMulPow2(BMulPow10(m, sp), e + F), 2)
        T == BMulS(BMulPow2(D1, F), 2)
-       tol == BAdd(BMulS(BPow2(F), u2), BMulS(BMulPow2(BMulPow10(<<1>>, sp), ue + F), 2 * k))
+       tol == BAdd(BMulS(BMulPow10(BPow2(F), MaxI(0 - s, 0)), u2), BMulS(BMulPow2(BMulPow10(<<1>>, sp), ue + F), 2 * k))
    IN BLeq(BAbsDiff(A, T), tol)
 
 \* ------------------------------------------------------------ decimal text
